@@ -6,6 +6,8 @@ Definition jqs (l : list Q) : jv := JL (map jq l).
 Definition jqss (l : list (list Q)) : jv := JL (map jqs l).
 Definition jsres (r : sres) : jv :=
   match r with
+  | RTimes l => JC "Times" [jqs l]
+  | RTimesP l => JC "TimesP" [jqss l]
   | RNum q => JC "Num" [jq q]
   | RNums l => JC "Nums" [jqs l]
   | RRow l => JC "Row" [jqs l]
@@ -39,104 +41,69 @@ Definition mk_rd (t : Q) (u s cu cs io : Z) : preading :=
 Definition mk_pev (o : Z) (i : ival) (n : Z) (a b : preading) : Z * pevent :=
   (o, {| pe_iv := i; pe_ncpu := n; pe_r1 := a; pe_r2 := b |}).
 
-Definition jstats (x : option Z * option Z * option Z) : jv :=
-  let '(c, i, s) := x in JL [jopt JZ c; jopt JZ i; jopt JZ s].
-
 (* the layout psutil fixes from the first read of this content *)
 Definition nf_now (content : bytes) : nat := nf_of content.
 
-(* cpu_times() / cpu_times(percpu=True) / cpu_stats() on a kernel-shaped /proc/stat *)
+(* cpu_times() / cpu_times(percpu=True) on a kernel-shaped /proc/stat *)
 Definition run_times (clk : positive) (nf : nat) (r : kstat) : jv :=
   let c := k_stat r in
   JL [ JB c;
        jv_outcome jqs (cpu_times clk (nf_now c) c);
        jv_outcome jqss (per_cpu_times clk (nf_now c) c);
-       jv_outcome jstats (cpu_stats c);
-       (if wf_kstat nf r then JL [jqs (spec_cpu_times clk r); jqss (spec_per_cpu_times clk r)] else jnone);
-       (if wf_kstat nf r then
-          match tail_first Tctxt r, tail_first Tintr r, tail_first Tsoftirq r with
-          | Some c', Some i, Some s =>
-            (* the kernel prints each of the three lines once, each with a value *)
-            if forallb (fun t => negb (is_nil (snd t))) (ks_tail r)
-               && forallb (fun n => Nat.eqb (length (filter (fun t => beqb (tname_bytes (fst t)) (tname_bytes n)) (ks_tail r))) 1)
-                          [Tctxt; Tintr; Tsoftirq]
-            then JL [JZ c'; JZ i; JZ s] else jnone
-          | _, _, _ => jnone
-          end
-        else jnone) ].
+       (if wf_kstat nf r then JL [jqs (spec_cpu_times clk r); jqss (spec_per_cpu_times clk r)] else jnone) ].
 
 (* arbitrary bytes: model only *)
 Definition run_times_raw (clk : positive) (content : bytes) : jv :=
   JL [ jv_outcome jqs (cpu_times clk (nf_now content) content);
-       jv_outcome jqss (per_cpu_times clk (nf_now content) content);
-       jv_outcome jstats (cpu_stats content) ].
+       jv_outcome jqss (per_cpu_times clk (nf_now content) content) ].
 
-(* same CPU set in every kernel state of the script: per-CPU series are meaningful *)
-Definition cpu_ids (r : kstat) : list bytes := map fst (ks_cpus r).
-Fixpoint list_beqb (a b : list bytes) : bool :=
-  match a, b with
-  | [], [] => true
-  | x :: a', y :: b' => beqb x y && list_beqb a' b'
-  | _, _ => false
+(* well-formed script: every kernel state (the import-time one included) has nf counters per
+   line and the CPU set of the first one *)
+Definition first_ids (imp : option (Z * kstat)) (evs : list kevent) : list bytes :=
+  match imp, evs with
+  | Some (_, k0), _ => cpu_ids k0
+  | None, e :: _ => cpu_ids (ke_k1 e)
+  | None, [] => []
   end.
-Definition script_wf (nf : nat) (evs : list kevent) : bool :=
-  match evs with
-  | [] => true
-  | e0 :: _ =>
-    forallb (fun e => wf_kstat nf (ke_k1 e) && wf_kstat nf (ke_k2 e)
-                      && list_beqb (cpu_ids (ke_k1 e)) (cpu_ids (ke_k1 e0))
-                      && list_beqb (cpu_ids (ke_k2 e)) (cpu_ids (ke_k1 e0))) evs
-  end.
-
-(* elapsed ticks (demanded total) of every pair of samples a call compares: input
-   classification for the harness (sub-second totals are the known-finding class) *)
-Definition pair_totals (percpu : bool) (a b : kstat) : list Z :=
-  if percpu then zipw (fun x y => spec_total (dticks x y)) (cpu_rows a) (cpu_rows b)
-  else [spec_total (dticks (ticks (ks_total a)) (ticks (ks_total b)))].
-Definition event_totals (hist : list kevent) (e : kevent) : list Z :=
-  match ke_iv e with
-  | INeg => []
-  | IPos => pair_totals (ke_percpu e) (ke_k1 e) (ke_k2 e)
-  | _ => pair_totals (ke_percpu e) (spec_prev hist e) (ke_k1 e)
-  end.
-Fixpoint script_totals (hist : list kevent) (evs : list kevent) : list (list Z) :=
-  match evs with
-  | [] => []
-  | e :: r => event_totals hist e :: script_totals (e :: hist) r
-  end.
+Definition script_wf (nf : nat) (imp : option (Z * kstat)) (evs : list kevent) : bool :=
+  let ids := first_ids imp evs in imp_wf nf ids imp && forallb (event_wf nf ids) evs.
 
 (* kernel consistency (guest time is part of user time): when no time elapsed between two
    samples, no counter moved at all -- the property leaves the guest share open otherwise *)
-Definition pair_rows (percpu : bool) (a b : kstat) : list (list Z) :=
-  if percpu then zipw dticks (cpu_rows a) (cpu_rows b) else [dticks (ticks (ks_total a)) (ticks (ks_total b))].
 Definition rows_consistent (rows : list (list Z)) : bool :=
   forallb (fun d => negb (spec_total d =? 0) || forallb (Z.eqb 0) d) rows.
-Definition event_consistent (hist : list kevent) (e : kevent) : bool :=
-  match ke_iv e with
-  | INeg => true
-  | IPos => rows_consistent (pair_rows (ke_percpu e) (ke_k1 e) (ke_k2 e))
-  | _ => rows_consistent (pair_rows (ke_percpu e) (spec_prev hist e) (ke_k1 e))
-  end.
-Fixpoint script_consistent (hist : list kevent) (evs : list kevent) : bool :=
+Fixpoint script_consistent (imp : option (Z * kstat)) (hist : list kevent) (evs : list kevent) : bool :=
   match evs with
   | [] => true
-  | e :: r => event_consistent hist e && script_consistent (e :: hist) r
+  | e :: r => (match ke_fn e with FTimesPercent => rows_consistent (event_rows imp hist e) | _ => true end)
+              && script_consistent imp (e :: hist) r
   end.
-Definition script_ok (nf : nat) (evs : list kevent) : bool := script_wf nf evs && script_consistent [] evs.
+(* elapsed ticks of every pair a call compares (sub-second totals of cpu_times_percent calls
+   are the known-finding class) *)
+Fixpoint script_totals (imp : option (Z * kstat)) (hist : list kevent) (evs : list kevent) : list (list Z) :=
+  match evs with
+  | [] => []
+  | e :: r => map spec_total (event_rows imp hist e) :: script_totals imp (e :: hist) r
+  end.
 
-(* a script of calls by several threads over kernel-shaped snapshots:
-   printed contents (k1, and k2 for the blocking form), model results, demanded
-   results, elapsed totals *)
-Definition run_script (clk : positive) (nf : nat) (evs : list kevent) : jv :=
+(* a script of calls by several threads over kernel-shaped snapshots: printed contents (import
+   time, then k1 and -- blocking form -- k2 per event), model results, demanded results (when the
+   script is well-formed and consistent), elapsed totals, and whether the hypotheses of the
+   script theorem hold (then model = spec is a theorem) *)
+Definition run_script (clk : positive) (nf : nat) (imp : option (Z * kstat)) (evs : list kevent) : jv :=
+  let imp_b := option_map (fun x => (fst x, k_stat (snd x))) imp in
   JL [ JL (map (fun e => JL [JB (k_stat (ke_k1 e));
                              JB (if is_pos (ke_iv e) then k_stat (ke_k2 e) else [])]) evs);
-       JL (map (jv_outcome jsres) (run clk sys_init (map to_event evs)));
-       (if script_ok nf evs then JL (map (jv_outcome jsres) (spec_run [] evs)) else jnone);
-       JL (map (fun l => JL (map JZ l)) (script_totals [] evs)) ].
+       JL (map (jv_outcome jsres) (run clk (sys_start clk imp_b) (map to_event evs)));
+       (if script_wf nf imp evs && script_consistent imp [] evs
+        then JL (map (jv_outcome jsres) (spec_run clk imp [] evs)) else jnone);
+       JL (map (fun l => JL (map JZ l)) (script_totals imp [] evs));
+       jopt (fun x => JB (k_stat (snd x))) imp;
+       jbool (imp_wf nf (first_ids imp evs) imp && script_ok clk nf (first_ids imp evs) imp [] evs) ].
 
-(* raw script (arbitrary bytes): model only *)
-Definition run_script_raw (clk : positive) (evs : list event) : jv :=
-  JL [ JL (map (jv_outcome jsres) (run clk sys_init evs)) ].
+(* raw script (arbitrary bytes, optional import-time content): model only *)
+Definition run_script_raw (clk : positive) (imp : option (Z * bytes)) (evs : list event) : jv :=
+  JL [ JL (map (jv_outcome jsres) (run clk (sys_start clk imp) evs)) ].
 
 (* Process.cpu_percent scripts over several Process objects *)
 Definition run_proc (clk : positive) (evs : list (Z * pevent)) : jv :=
